@@ -32,6 +32,9 @@ def compile_schema(wsgi, workdir, tns):
     for s in schemas:
         for imp in s.findall('{%s}import' % XS):
             ns = imp.get('namespace')
+            if imp.get('schemaLocation'):
+                # what is published is this one document: a location hint names something a consumer cannot get
+                raise ValueError('the published schema of %s imports %s from %r, which is not published' % (s.get('targetNamespace'), ns, imp.get('schemaLocation')))
             if ns in names:
                 imp.set('schemaLocation', names[ns])
         # namespace declarations live on wsdl:definitions: serialise the subtree standalone
@@ -330,7 +333,9 @@ def run(ctx):
                 continue
             key0 = '%s|fam=%s' % (c01.sig_class(c), fam)
             try:
-                w = c01.World(c, fam, 'soft')
+                # (every other application validates its requests against the schema: the validator's own copy of the
+                #  documents - built when the application is - is not what is published)
+                w = c01.World(c, fam, 'lxml' if i % 2 else 'soft')
                 schema = compile_schema(w.wsgi, wd, c['tns'])
             except Exception as e:
                 ctx.violation('schema-does-not-compile|%s|%s' % (type(e).__name__, key0),
